@@ -178,12 +178,12 @@ func graphBlocks(thorough bool) []block {
 	inFunc := []string{"fcall", "fnocall"}
 	bs := []block{
 		{n: 0, graphs: allGraphs(0, 0), combos: cross(mainVariants, productAssigns(0)), label: "n=0: main alone x 3 main variants"},
-		{n: 1, graphs: allGraphs(1, 1), combos: cross(mainVariants, productAssigns(1)), label: "n=1: all 4 graphs x 3 main variants x all 6 module variants"},
-		{n: 2, graphs: allGraphs(2, 2), combos: cross(mainVariants, productAssigns(2)), label: "n=2: all 64 graphs x 3 main variants x all 36 variant assignments"},
+		{n: 1, graphs: allGraphs(1, 1), combos: cross(mainVariants, productAssigns(1)), label: "n=1: all 4 graphs x 3 main variants x all 7 module variants"},
+		{n: 2, graphs: allGraphs(2, 2), combos: cross(mainVariants, productAssigns(2)), label: "n=2: all 64 graphs x 3 main variants x all 49 variant assignments"},
 	}
 	for _, ns := range nameSets2 {
 		bs = append(bs, block{n: 2, graphs: allGraphs(2, 2), combos: cross(mainVariants, productAssigns(2)), names: ns,
-			label: fmt.Sprintf("n=2, module names %q: all 64 graphs x 3 main variants x all 36 variant assignments", ns)})
+			label: fmt.Sprintf("n=2, module names %q: all 64 graphs x 3 main variants x all 49 variant assignments", ns)})
 	}
 	for _, ns := range nameSets3 {
 		b := block{n: 3, graphs: allGraphs(3, 3), names: ns}
@@ -200,7 +200,7 @@ func graphBlocks(thorough bool) []block {
 		bs = append(bs,
 			block{n: 4, graphs: allGraphs(4, 2), label: "n=4: all 161051 graphs with out-degree<=2 x (main top x uniform assignments, main fcall/fnocall x all-map assignment)",
 				combos: append(cross(top, uniformAssigns(4)), cross(inFunc, uniformAssigns(4)[:1])...)},
-			block{n: 3, graphs: allGraphs(3, 3), label: "n=3: all 4096 graphs x (main top x all 216 variant assignments, main fcall/fnocall x uniform+rotated assignments)",
+			block{n: 3, graphs: allGraphs(3, 3), label: "n=3: all 4096 graphs x (main top x all 343 variant assignments, main fcall/fnocall x uniform+rotated assignments)",
 				combos: append(cross(top, productAssigns(3)), cross(inFunc, uniformAssigns(3), rotatedAssigns(3))...)})
 	} else {
 		bs = append(bs, block{n: 3, graphs: allGraphs(3, 3), combos: append(cross(mainVariants, uniformAssigns(3)), cross(top, rotatedAssigns(3))...),
